@@ -247,3 +247,7 @@ func coerce(s string) string {
 	_ = json.Unmarshal(b, &out)
 	return out
 }
+
+func newMetrics() *metrics.PrometheusMetricsProvider {
+	return metrics.NewPrometheusMetricsProviderForRegisterer(prometheus.NewRegistry())
+}
